@@ -177,6 +177,8 @@ func (r *DataReader) EcsLocation(q []byte, ecs *dns.EDNS0_SUBNET) (*Location, er
 	}
 	// There is no mapping for this qname
 	if loc.MapID == [2]byte{0, 0} {
+		// no client-subnet map applies: the answer does not depend on the subnet
+		ecs.SourceScope = 0
 		return nil, nil
 	}
 	// We found a match
